@@ -5,7 +5,7 @@ from vlib import core
 THEOREMS = ["Props.C20." + t for t in ["prefix_safe_lookup", "table_prefix_safe", "documented_accepted", "table_wellformed",
             "sets_exactly_own", "documented_name_resolves", "slim_disables_deep_equal", "reject_iff",
             "step_reject_local", "naming_style_keeps_initialisms", "cmdline_transparent",
-            "cmdline_sets_exactly_own", "cmdline_adds_nothing_unless_nested", "cmdline_value_keeps_equals", "nested_forces_slim"]]
+            "cmdline_sets_exactly_own", "cmdline_outcome_is_handle", "cmdline_adds_nothing_unless_nested", "cmdline_value_keeps_equals", "nested_forces_slim"]]
 
 def run(ctx):
     exe = ctx.go_build("c20")
